@@ -234,7 +234,7 @@ struct slot {
 	int id, sig_i, persist, own_mem, prio;
 	int added;            /* model */
 	long credit, calls;
-	int owed, burst;
+	int owed, burst; const char *owed_tag;
 	struct act acts[MAXACT]; int nact, act_pos;
 };
 enum { O_ADD, O_DEL, O_RAISE, O_STEP, O_PRIOR, O_FORK, O_FREE };
@@ -247,7 +247,7 @@ static int used_sig[NSIGS];
 static int count_added[NSIGS];
 static long pend[NSIGS];          /* deliveries since the last idle point */
 static struct sigaction orig[NSIGS];   /* as read back right after installing the prior disposition */
-static int prior_is_fn[NSIGS];
+static int prior_is_fn[NSIGS], prior_is_ign[NSIGS];
 static volatile long prior_calls[NSIGS];
 static int mech_sigfd, backend_i, npri;
 static const char *BACKENDS[3] = { "epoll", "poll", "select" };
@@ -298,10 +298,10 @@ static void install_prior(int S, vh_rng *r)
 	 * last event goes away is handed to the prior disposition on unblock.  The property does not speak about
 	 * that, so the generator never combines signalfd with a prior SIG_DFL whose default action kills. */
 	if (kind == 0 && mech_sigfd && SIGFATAL[S]) kind = 2;
-	prior_is_fn[S] = 0;
+	prior_is_fn[S] = 0; prior_is_ign[S] = 0;
 	switch (kind) {
-	case 0: sa.sa_handler = SIG_DFL; c_stat("prior_sig_dfl"); break;
-	case 1: sa.sa_handler = SIG_IGN; c_stat("prior_sig_ign"); break;
+	case 0: sa.sa_handler = SIG_DFL; prior_is_ign[S] = !SIGFATAL[S]; c_stat("prior_sig_dfl"); break;
+	case 1: sa.sa_handler = SIG_IGN; prior_is_ign[S] = 1; c_stat("prior_sig_ign"); break;
 	case 2: sa.sa_handler = prior_h1; prior_is_fn[S] = 1; c_stat("prior_handler"); break;
 	case 3: sa.sa_handler = prior_h2; prior_is_fn[S] = 1; c_stat("prior_handler"); break;
 	default: sa.sa_sigaction = prior_si; sa.sa_flags |= SA_SIGINFO; prior_is_fn[S] = 1; c_stat("prior_siginfo_handler"); break;
@@ -506,11 +506,12 @@ static void step_to_idle(void)
 		struct slot *s = &slots[j];
 		if (s->added && s->owed) {
 			char key[96];
-			snprintf(key, sizeof(key), "C07:delivery-not-reported:%s%s", mech_sigfd ? "signalfd" : "selfpipe", where_sfx);
+			snprintf(key, sizeof(key), "C07:delivery-not-reported:%s%s%s", mech_sigfd ? "signalfd" : "selfpipe", where_sfx, s->owed_tag ? s->owed_tag : "");
 			c_viol(key, "event %d (SIG%s, %s) stayed added, its signal was delivered (%ld in this batch) but its callback did not run before the loop went idle (backend=%s)",
 				s->id, SIGN[s->sig_i], s->persist ? "persist" : "one-shot", pend[s->sig_i], BACKENDS[backend_i]);
 			s->owed = 0;
 		}
+		s->owed_tag = NULL;
 	}
 	for (S = 0; S < NSIGS; S++) if (pend0[S] > 0) { c_stat("batches"); if (pend0[S] > 1) c_stat("batches_multi"); }
 	if (r != 0 && !mech_sigfd) {
@@ -673,9 +674,16 @@ static void one_round(vh_rng *r, int round, int do_fork, uint64_t *hash)
 			pid = fork();
 			if (pid < 0) break;
 			if (pid == 0) {
-				int rr;
+				int rr, preS = -1;
 				in_grandchild = 1; ncst = 0; c_nviol = 0;
 				snprintf(where_sfx, sizeof(where_sfx), "-child");
+				/* signalfd keeps the signal blocked, so a delivery that reaches the child before it has called
+				 * event_reinit stays pending in the child and belongs to the child's events (seed C07-4) */
+				if (mech_sigfd && vh_chance(r, 1, 2)) {
+					int k0 = (int)vh_below(r, NSIGS), k;
+					for (k = 0; k < NSIGS && preS < 0; k++) if (used_sig[(k0 + k) % NSIGS] && count_added[(k0 + k) % NSIGS] > 0) preS = (k0 + k) % NSIGS;
+					if (preS >= 0) { tr("== forked child: raise SIG%s before event_reinit", SIGN[preS]); raise(SIGS[preS]); c_stat("child_delivery_before_reinit"); }
+				}
 				rr = event_reinit(base);
 				tr("== forked child: event_reinit -> %d", rr);
 				c_stat("child_reinits");
@@ -683,6 +691,16 @@ static void one_round(vh_rng *r, int round, int do_fork, uint64_t *hash)
 				/* deliveries made to the parent before the fork are not owed to the child (pending signals and
 				 * the parent's self-pipe content are not inherited); already-activated events may still run. */
 				for (j = 0; j < NSLOT; j++) slots[j].owed = 0;
+				if (preS >= 0) {
+					pend[preS] += 1;
+					for (j = 0; j < NSLOT; j++) if (slots[j].sig_i == preS && slots[j].added) {
+						slots[j].credit += 1; slots[j].owed = 1;
+						/* event_reinit re-installs the pre-add dispositions while it rebuilds the backend; when that is
+						 * SIG_IGN (or SIG_DFL of a signal ignored by default) the kernel discards the pending signal (own key: known finding) */
+						slots[j].owed_tag = prior_is_ign[preS] ? ":before-reinit:prior-disposition-ignores" : ":before-reinit";
+					}
+					c_stat(prior_is_ign[preS] ? "child_delivery_before_reinit_prior_ign" : "child_delivery_before_reinit_prior_other");
+				}
 			} else {
 				while (waitpid(pid, &status, 0) < 0 && errno == EINTR) ;
 				c_stat("fork_variants");
@@ -727,7 +745,7 @@ static void run_case(vh_rng *r)
 		/* start from a clean slate whatever the harness process or an earlier case of this batch left */
 		sigset_t none; struct sigaction dfl; int S;
 		memset(&dfl, 0, sizeof(dfl)); dfl.sa_handler = SIG_DFL; sigemptyset(&dfl.sa_mask);
-		for (S = 0; S < NSIGS; S++) { __real_sigaction(SIGS[S], &dfl, NULL); prior_calls[S] = 0; prior_is_fn[S] = 0; }
+		for (S = 0; S < NSIGS; S++) { __real_sigaction(SIGS[S], &dfl, NULL); prior_calls[S] = 0; prior_is_fn[S] = 0; prior_is_ign[S] = !SIGFATAL[S]; }
 		sigemptyset(&none); sigprocmask(SIG_SETMASK, &none, NULL);
 		case_callbacks = case_restores = 0;
 	}
